@@ -219,6 +219,18 @@ impl Terminal {
 
     /// Read keys until newline.
     fn read_line_raw(&mut self) {
+        #[cfg(feature = "verif")]
+        if verif::scripted() {
+            // Scripted keys (no tty): feed them to the real `handle_key`; no prompt, no raw mode
+            loop {
+                let key = verif::next_key();
+                let done = self.handle_key(key);
+                verif::log_view(self.verif_view(), done);
+                if done {
+                    return; // EOL
+                }
+            }
+        }
         term::enable_raw_mode();
         loop {
             // Technically redrawing of prompt could be avoided, but this method makes it much
@@ -482,4 +494,105 @@ fn count_chars_bytes(string: &str, char_index: usize) -> (usize, usize) {
         char_count += 1;
     }
     (byte_index, char_count)
+}
+
+/// Verification hooks (cargo feature `verif`): drive the real editing code without a tty and
+/// without the history file.
+#[cfg(feature = "verif")]
+pub mod verif {
+    use std::cell::RefCell;
+    use std::collections::VecDeque;
+
+    use super::{Key, Read as _, Terminal, TerminalHistory};
+
+    /// Buffer, visible cursor, history index, history list, current line.
+    pub type View = (String, usize, usize, Vec<String>, String);
+
+    /// Payload of the unwind raised when `read_line_raw` needs a key and the script is used up.
+    pub struct VerifKeysExhausted;
+
+    thread_local! {
+        static KEYS: RefCell<Option<VecDeque<Key>>> = const { RefCell::new(None) };
+        static VIEWS: RefCell<Vec<(View, bool)>> = const { RefCell::new(Vec::new()) };
+    }
+
+    /// Install (`Some`) or remove (`None`) the scripted key queue of this thread. Clears the log.
+    pub fn script_keys(keys: Option<Vec<Key>>) {
+        KEYS.with(|k| *k.borrow_mut() = keys.map(VecDeque::from));
+        VIEWS.with(|v| v.borrow_mut().clear());
+    }
+
+    /// Views logged after each scripted key since the last call, with what `handle_key` returned.
+    pub fn take_views() -> Vec<(View, bool)> {
+        VIEWS.with(|v| std::mem::take(&mut *v.borrow_mut()))
+    }
+
+    pub(super) fn scripted() -> bool {
+        KEYS.with(|k| k.borrow().is_some())
+    }
+
+    pub(super) fn next_key() -> Key {
+        match KEYS.with(|k| k.borrow_mut().as_mut().and_then(VecDeque::pop_front)) {
+            Some(key) => key,
+            None => std::panic::resume_unwind(Box::new(VerifKeysExhausted)),
+        }
+    }
+
+    pub(super) fn log_view(view: View, done: bool) {
+        VIEWS.with(|v| v.borrow_mut().push((view, done)));
+    }
+
+    impl Terminal {
+        /// A terminal reader with the given history and no history file.
+        pub fn verif_new(history: Vec<String>) -> Self {
+            let index = history.len();
+            Self {
+                stderr: std::io::stderr(),
+                buffer: String::with_capacity(super::INITIAL_BUFFER_CAPACITY),
+                cursor: 0,
+                visible_cursor: 0,
+                history: TerminalHistory {
+                    list: history,
+                    index,
+                    file: None,
+                },
+            }
+        }
+
+        /// The real `handle_key`.
+        pub fn verif_handle_key(&mut self, key: Key) -> bool {
+            self.handle_key(key)
+        }
+
+        /// Set the focused history item (index == length: the new line) and the visible cursor.
+        pub fn verif_focus(&mut self, history_index: usize, visible_cursor: usize) {
+            self.history.index = history_index;
+            self.visible_cursor = visible_cursor;
+        }
+
+        pub fn verif_view(&self) -> View {
+            let current = if self.history.index >= self.history.list.len() {
+                self.buffer.clone()
+            } else {
+                self.history.list[self.history.index].clone()
+            };
+            (
+                self.buffer.clone(),
+                self.visible_cursor,
+                self.history.index,
+                self.history.list.clone(),
+                current,
+            )
+        }
+
+        /// Byte cursor of `get_next_command` (0: the next `read` reads a new line).
+        pub fn verif_byte_cursor(&self) -> usize {
+            self.cursor
+        }
+
+        /// The real `Read::read` (`read_line` on the scripted keys + `get_next_command`).
+        pub fn verif_read(&mut self) -> Option<String> {
+            self.read().map(str::to_string)
+        }
+    }
 }
